@@ -44,7 +44,11 @@ func typeOf(rt reflect.Type, lv int) *types.Type {
 		panic("max nested depth exceeded")
 	}
 
-	for rt.Kind() == reflect.Pointer {
+	for n := 0; rt.Kind() == reflect.Pointer; n++ {
+		if n > maxLevel {
+			// type P *P
+			panic("max nested depth exceeded")
+		}
 		rt = rt.Elem()
 	}
 	if rt == typeOfTime {
